@@ -143,7 +143,13 @@ func lookupLine(mgr *waddrmgr.Manager, ns walletdb.ReadBucket, a btcutil.Address
 	if err != nil {
 		return fmt.Sprintf("Address(%s): not found", a.EncodeAddress())
 	}
-	return fmt.Sprintf("Address(%s): %s", a.EncodeAddress(), renderMA(ns, ma))
+	acctInfo := "AddrAccount="
+	if sm, acct, err := mgr.AddrAccount(ns, a); err != nil {
+		acctInfo += errClass08(err)
+	} else {
+		acctInfo += fmt.Sprintf("%v/%d", sm.Scope(), acct)
+	}
+	return fmt.Sprintf("Address(%s): %s %s", a.EncodeAddress(), renderMA(ns, ma), acctInfo)
 }
 
 func lookupLineScoped(mgr *waddrmgr.Manager, sc waddrmgr.KeyScope, ns walletdb.ReadBucket, a btcutil.Address) string {
